@@ -105,7 +105,7 @@ impl<P: PlanePersistence, F: FnMut() -> Result<P, StoreError>> ChildExec<P, F> {
             match op {
                 Op::ReopenNode(s) | Op::Handover(s) | Op::Stop(s) => self.drop_node(pick_index(*s, n_agents)),
                 // not generated for the kill tier
-                Op::Request(_) | Op::Abandon(..) | Op::Resolve(..) => {}
+                Op::Request(_) | Op::Abandon(..) | Op::Resolve(..) | Op::Fill(..) | Op::RemoveRun(..) => {}
                 _ => {
                     for a in 0..n_agents {
                         self.drop_node(a);
@@ -306,12 +306,17 @@ pub fn check_kill(kc: &KillCase) -> Verdict {
     let fp = vcommon::fnv1a(format!("{:?}", kc).as_bytes());
     let scratch = Scratch::new();
     let db = scratch.0.join("db");
-    let mut v = kill_driver(kc, &scratch, || open_rocks(&db));
+    let v = kill_driver(kc, &scratch, || open_rocks(&db));
+    sticky(fp, v, "the kill timing")
+}
+
+/// See `SEEN_FAILURES`.
+pub fn sticky(fp: u64, mut v: Verdict, what: &str) -> Verdict {
     let mut seen = SEEN_FAILURES.lock().unwrap();
     if v.failures.is_empty() {
         if let Some(prev) = seen.get(&fp) {
             for (sig, detail) in prev {
-                v.fail(sig.clone(), format!("{} (recorded from an earlier execution of this case; the kill timing is not reproducible)", detail));
+                v.fail(sig.clone(), format!("{} (recorded from an earlier execution of this case; {} is not reproducible)", detail, what));
             }
         }
     } else if seen.len() < 10_000 {
